@@ -322,6 +322,7 @@ class LibHarness(Harness):
             of, nodes_f, keys_f = self.observe(ex, fresh, texts, line)
             info = {'input': ctx.input_desc}
             codiffs = [n_ for n_ in sorted(of) if oi.get(n_) != of[n_]]
+            ctx.law('C18.paths-after-edit-equal-fresh-start', oi['paths'] == of['paths'], dict(info, incremental=oi['paths'], fresh=of['paths'], step=step))
             for name in sorted(of):
                 if oi.get(name) != of[name]:
                     ctx.law('C04.incremental-equals-fresh:' + name.split(':')[0], False,
@@ -360,12 +361,17 @@ class LibHarness(Harness):
                 first = [b for b in self.cur_docs[tok_][0] if b['k'] != 'Meta'][:1]
                 cur_titles[k] = h_doc.inl_text_neutral(first[0]) if first and first[0]['k'] == 'Header' else None
             for k in sorted(texts):
-                for (tgt, text, orig) in tree_links(oi['tree:' + k]):
+                got_links = tree_links(oi['tree:' + k])
+                src_links = doc_links(self.cur_docs[texts[k]][0])
+                if not ctx.law('C06.link-survives-formatting', [u for u, t_, o in got_links] == [u for u, t_ in src_links],
+                               dict(info, note=k, links=got_links, document_links=src_links, graph='incremental')):
+                    continue
+                for (tgt, text, _), (u, orig) in zip(got_links, src_links):
                     t = resolve(tgt, k)
                     if t in cur_titles and cur_titles[t] is not None:
                         ctx.law('C06.title-refreshed-from-resolved-note', text == cur_titles[t], dict(info, note=k, target=t, text=text, expected=cur_titles[t], graph='incremental'))
-                    elif t in cur_titles:
-                        ctx.law('C06.text-kept-when-target-has-no-title', text in ('x',) or text.startswith('T'), dict(info, note=k, target=t, text=text, graph='incremental'))
+                    else:
+                        ctx.law('C06.text-kept-when-target-has-no-title', text == orig, dict(info, note=k, target=t, text=text, original=orig, graph='incremental'))
             # ---- C05 / H5: backlinks vs independent scan of the documents (fresh graph = what a restart would answer)
             self.backlink_laws(ctx, of, texts, info, 'fresh')
             self.backlink_laws(ctx, oi, texts, info, 'incremental')
@@ -484,6 +490,12 @@ class LibHarness(Harness):
         diffs = [k for k in of if jsonable_cmp(oi[k]) != jsonable_cmp(of[k])]
         v['replay_result'] = {'differences': diffs, 'incremental': {k: oi[k] for k in diffs}, 'fresh': {k: of[k] for k in diffs}}
         law = v['law']
+        if law == 'C18.paths-after-edit-equal-fresh-start':
+            v['replay_verdict'] = 'native incremental vs fresh differ on: %s' % diffs
+            return 'paths' in diffs
+        if law.startswith('C06.'):
+            v['replay_verdict'] = 'native incremental vs fresh differ on: %s' % diffs
+            return any(k.startswith('tree:') or k.startswith('title:') for k in diffs)
         if law.startswith('C04.'):
             want = law.split(':', 1)[1]
             v['replay_verdict'] = 'native incremental vs fresh differ on: %s' % diffs
@@ -533,6 +545,30 @@ class LibHarness(Harness):
                 return True
         v['replay_verdict'] = 'native get_node_id_at agrees on lines tried'
         return False
+
+def doc_links(blocks):
+    """(url, visible text) of every Regular internal link of a neutral document, in document order"""
+    out = []
+    def inl(xs):
+        for i in xs:
+            if i['k'] == 'Link' and not is_external(i['url']):
+                out.append((i['url'], ''.join(c['t'] for c in i.get('c', []) if c['k'] == 'Str')))
+            elif 'c' in i:
+                inl(i['c'])
+    def walk(bs):
+        for b in bs:
+            k = b['k']
+            if k == 'Ref' and not is_external(b['url']):
+                out.append((b['url'], b['t']))
+            elif k in ('Para', 'Header'):
+                inl(b.get('inl', []))
+            elif k == 'Quote':
+                walk(b['c'])
+            elif k in ('Bullet', 'Ordered'):
+                for it in b['items']:
+                    walk(it)
+    walk(blocks)
+    return out
 
 def tree_links(t):
     """(url/key, visible text, None) of every Regular link or reference in a collected tree"""
